@@ -98,6 +98,7 @@ def showErr : Err → String
   | .syntax => "syntax"
   | .notFloat => "notfloat"
   | .outOfRange => "outofrange"
+  | .notDouble => "notdouble"
 
 def showElem : Elem → String
   | .bulk b => "$" ++ hexOfBytes b
@@ -303,6 +304,7 @@ def cmd : P Cmd := do
   | "ZRANGEBYSCORE" => do
     let k ← strKey; let lo ← bound; let hi ← bound; let w ← bool01; let l ← limit
     pure (.zrangebyscore k lo hi w l)
+  | "SORT" => do let k ← strKey; let d ← optKey; pure (.sort k d)
   | "LMOVE" => do let a ← strKey; let b ← strKey; let f ← side; let t ← side; pure (.lmove a b f t)
   | _ => failure
 
